@@ -28,6 +28,7 @@ ASSUMPTIONS = ['the in-memory original driven by the same history is the oracle'
 GROUP = ('part', 'verdict', 'defect')
 
 FORMATS = ['yml', 'json', 'pkl', 'yml+pkl']
+VERIF_DIR = os.path.dirname(os.path.dirname(os.path.dirname(os.path.abspath(__file__))))
 
 CONTENT = [
     1e-7, 1e22, -0.0, 1 / 3, 0, 1, -1.5, 123456789012, True, False,
@@ -298,7 +299,14 @@ def work_rules(job):
             spec = dict(spec, calc={'iterate': True, 'count': 50, 'delta': 0.001})
         stored = {a: v[1] for a, v in W.scratch_values(fam['spec']).items() if v[0] == 'ok'}
         xlsx = os.path.join(tmp, 'book.xlsx')
-        m = W.compile_xlsx(spec, xlsx, stored)
+        W.write_xlsx(spec, xlsx, stored)
+        # compiled from a RELATIVE workbook path (the name the user gave must survive the trip as given)
+        cwd = os.getcwd()
+        os.chdir(tmp)
+        try:
+            m = ExcelCompiler(filename='book.xlsx', cycles=None)
+        finally:
+            pass
         for a in fam['cells']:
             ev(m, a)
         m.extra_data = {'user_key': 'user value', 'user_num': 3, 'user_list': [1, 'a']}
@@ -371,10 +379,15 @@ def work_rules(job):
                     f'{ld.hash_matches}', fmt=fmt)
         acc.add('distinct_nontrivial')
         acc.sample(dict(part='C', workbook=fam['name'], cycles=cycles))
+        os.chdir(cwd)
     except Exception as exc:
         import traceback
         bad('rules-raised', f'{type(exc).__name__}: {str(exc)[:200]} {traceback.format_exc()[-300:]}', exc=type(exc).__name__)
     finally:
+        try:
+            os.chdir(VERIF_DIR)
+        except Exception:
+            pass
         shutil.rmtree(tmp, ignore_errors=True)
     return acc.result()
 
